@@ -210,7 +210,7 @@ func init() {
 			s.pol.FailBudget = fails
 			if fails > 0 {
 				s.pol.PPre, s.pol.PPost, s.pol.PQueueFull, s.pol.PRouterErr = 0.2, 0.2, 0.05, 0.1
-				s.pol.PSendFalse, s.pol.PSendErr = 0.3, 0.1
+				s.pol.PSendFalse, s.pol.PSendErr, s.pol.PSendFull = 0.3, 0.1, 0.1
 			}
 			s.Crash() // reboot: background coroutines restart with last=0
 			tq := s.now + jump
